@@ -629,6 +629,14 @@ func (c *IPAMController) onBlockUpdated(kvp model.KVPair) {
 			// If the sequence number has changed for an existing allocation, it means
 			// it has been reallocated. Update the allocation in place and mark it as valid.
 			if existing.sequenceNumber != alloc.sequenceNumber {
+				if existing.node() != alloc.node() {
+					// Reallocated with the same handle on a different node. The allocation is
+					// indexed by node, so it must be released from the old node's bucket and
+					// registered afresh rather than updated in place.
+					c.releaseAllocation(existing)
+					c.assignAllocation(blockCIDR, &alloc)
+					continue
+				}
 				existing.sequenceNumber = alloc.sequenceNumber
 				existing.attrs = alloc.attrs
 				existing.markValid()
